@@ -185,12 +185,12 @@ int main(int argc, char **argv) {
         auto cellTerm = [&](RegionDecl &d, int64_t c) { AV v = I.peek(d.id, c * d.e.esz, d.e.esz, d.e.fp); return termOf(v); };
         if (const char *ed = getenv("IRFLOW_EVALDUMP")) { // debugging aid: numeric value of every cell at one evaluation point
           int pt = atoi(ed);
-          for (auto &d : regs) { if (d.cells > 160) continue; fprintf(stderr, "EVAL %s:", d.name.c_str()); for (int64_t c = 0; c < d.cells; c++) { std::unordered_map<int, long double> m; long double v; int t = cellTerm(d, c); if (d.e.fp ? evalReal(t, pt, m, v) : evalReal(t, pt, m, v)) fprintf(stderr, " %.10Lg", v); else fprintf(stderr, " ?"); } fprintf(stderr, "\n"); }
+          for (auto &d : regs) { if (d.cells > 160) continue; fprintf(stderr, "EVAL %s:", d.name.c_str()); for (int64_t c = 0; c < d.cells; c++) { std::unordered_map<int, long double> m; long double v; int t = cellTerm(d, c); if (getenv("IRFLOW_EVALCANON")) { static Canon CE; t = CE.canon(t); } if (d.e.fp ? evalReal(t, pt, m, v) : evalReal(t, pt, m, v)) fprintf(stderr, " %.10Lg", v); else { fprintf(stderr, " ?"); static int shown = 0; if (shown++ < 2) { Canon CC; fprintf(stderr, "\nTERM %s\nCANON %s\n", TT.str(t, 2).substr(0, 3000).c_str(), TT.str(CC.canon(t), 2).substr(0, 3000).c_str()); } } } fprintf(stderr, "\n"); }
         }
         auto report = [&](const CmpResult &r, const std::string &region, int64_t cell, int srcid) {
           nObl++;
           if (r.v == V_OK) { nOk++; return; }
-          json::Object j{{"kind", r.v == V_VIOLATION ? "value-mismatch" : "undecided"}, {"region", region}, {"cell", cell}, {"how", r.how}, {"got", r.got.substr(0, 400)}, {"expected", r.expected.substr(0, 400)}, {"point", r.point.substr(0, 600)}, {"src", srcStr(srcid)}, {"mode", mode}};
+          json::Object j{{"kind", r.v == V_VIOLATION ? "value-mismatch" : "undecided"}, {"region", region}, {"cell", cell}, {"how", r.how}, {"got", r.got.substr(0, getenv("IRFLOW_GOTLEN") ? atol(getenv("IRFLOW_GOTLEN")) : 400)}, {"expected", r.expected.substr(0, 400)}, {"point", r.point.substr(0, 600)}, {"src", srcStr(srcid)}, {"mode", mode}};
           if (r.v == V_VIOLATION) addViol(std::move(j)); else if (undec.size() < 8) undec.push_back(std::move(j)); else if (undec.size() == 8) undec.push_back(json::Object{{"kind", "more"}});
         };
         auto cellSrc = [&](RegionDecl &d, int64_t c) { ByteRef b = I.S.R[d.id].bytes[c * d.e.esz]; return b.cell >= 0 ? I.S.cells[b.cell].src : -1; };
